@@ -806,6 +806,9 @@ func checkC15(p *Prog, r *Report) {
 			checkReadStreamingPacket(p, r, rd, hdr)
 		}
 	}
+	// ---- R15.12 the first message is delivered as it was received ----------------------------------------------
+	r.Rule("R15.12", "The first message of an accepted connection, which handleConn hands to the ufrag's packet connection through AddConn, is queued there without a copy: the buffer it was read into is allocated by that call and kept, pooled or reused by nothing else, so a later connection's first frame cannot overwrite it while it waits to be read (rule of C14 R14.10).", 1)
+	checkRetainedFirstPacket(p, r)
 }
 
 func rootIdent(e ast.Expr) *ast.Ident {
